@@ -19,7 +19,7 @@ NEEDS_BUILD = True
 FUNCTIONS = ([("esutil/recfile/Util.py", n) for n in ("Recfile.write", "to_native_inplace")] +
              [("esutil/sfile.py", n) for n in ("SFile.write", "write")] +
              [("esutil/numpy_util.py", n) for n in ("match", "unique", "rem_dup", "to_native", "to_big_endian", "to_little_endian", "byteswap",
-                                                     "extract_fields", "remove_fields", "add_fields", "reorder_fields", "combine_fields", "splitarray")] +
+                                                     "extract_fields", "remove_fields", "add_fields", "reorder_fields", "combine_fields", "copy_fields", "split_fields", "compare_arrays", "splitarray")] +
              [("esutil/stat/util.py", n) for n in ("histogram", "Binner.__init__", "Binner.dohist", "Binner.calc_stats", "wmom", "wmedian", "sigma_clip", "interplin", "get_stats")] +
              [("esutil/coords.py", n) for n in ("euler", "eq2xyz", "xyz2eq", "sphdist", "gcirc", "eq2sdss", "sdss2eq", "rotate", "shiftlon", "atbound")] +
              [("esutil/cosmology/cosmology.py", n) for n in ("Cosmo.Dc", "Cosmo.Da", "Cosmo.sigmacritinv", "Cosmo.dV", "_as_c_order")] +
@@ -31,7 +31,7 @@ ASSUMPTIONS = [
     "compiled code: cosmolib wrappers and the histogram engine are interpreted (stores through pointers are monitored); records.cpp and htmc.cc are behind contracts that do not write into their inputs -- that those C++ files keep to this is not decided here",
     "WCS conversions are covered under C10",
 ]
-BOUNDS = {"quick": {"array length": "2 (strided: view of 4)", "tables": "2 rows"}, "thorough": {"array length": "2..3", "tables": "2..3 rows"}}
+BOUNDS = {"quick": {"array length": "2 (strided: view of 4)", "tables": "2 rows", "field operations / byte-order converters": "the configurations of C07 / C16 at the same tier (tables of shape (), (2,), (2,2); 1..2 fields)"}, "thorough": {"array length": "2..3", "tables": "2..3 rows"}}
 EXPLORE_OPTS = {"max_paths": 6000, "query_timeout_ms": 5000, "feas_timeout_ms": 1500}
 TIER_OPTS = {"quick": {"time_budget": 200}, "thorough": {"time_budget": 1200}}
 
@@ -59,6 +59,15 @@ def configs(tier):
     for fn in ("lookup_id", "match", "bincount", "bincount_ids", "Matcher"):
         for v in (0, 1, 2, 4):
             out.append(("htm", fn, v))
+    # field operations and byte-order converters with inplace off: the harnesses of C07 / C16 are re-run
+    # with every input frozen and only the write monitor armed (their own oracles are decided there)
+    from props import C07, C16
+    for c in C07.configs(tier):
+        if c[0] != "combine_empty":
+            out.append(("fieldops", c))
+    for c in C16.configs(tier):
+        if c[0] != "descr":
+            out.append(("byteorder", c))
     # the C++ text writer of records.cpp (string fields) reading the caller's buffer through mData
     out.append(("cxx_textwrite", 1))
     if tier != "quick":
@@ -169,10 +178,66 @@ def harness_cxx_textwrite(cx, cfg):
     cx.check("Records::WriteRows (text) ends with the newline of the last row", len(f.cells) > 0 and not is_sym(f.cells[-1]) and f.cells[-1] == 10)
 
 
+class _WritesOnly(object):
+    """view of the context handed to another property's harness: its functional oracles are
+    switched off (they are decided under that property), a store into a frozen input is kept"""
+
+    def __init__(self, cx, fixed):
+        self._cx = cx
+        self._fixed = fixed
+
+    def __getattr__(self, name):
+        return getattr(self._cx, name)
+
+    def check(self, label, goal, detail=None, hyps=None):
+        return True
+
+    def check_eq(self, label, a, b, detail=None):
+        return True
+
+    def lemma(self, label, goal):
+        return True
+
+    def lemma_eq(self, label, a, b):
+        return True
+
+    def check_root(self, *a, **k):
+        return True
+
+    def fail(self, label, detail=None):
+        if "wrote into" in label:
+            return self._cx.fail(label, detail)
+        return True
+
+    def flag(self, name):
+        if name in self._fixed:
+            return self._fixed[name]
+        return self._cx.flag(name)
+
+
+def harness_delegate(cx, cfg):
+    fam, sub = cfg
+    if fam == "fieldops":
+        from props import C07 as P
+        fixed = {}
+    else:
+        from props import C16 as P
+        fixed = {"inplace": False}
+    try:
+        P.harness(_WritesOnly(cx, fixed), sub)
+    except FrozenWrite:
+        cx.fail("%s %r wrote into an array passed to it" % (fam, sub[0]))
+        return
+    cx.check("%s: the frozen inputs were not stored into" % fam, True)
+    cx.drop_obligations("numerical domain conditions are not the subject of C15")
+
+
 def harness(cx, cfg):
     fam = cfg[0]
     if fam == "cxx_textwrite":
         return harness_cxx_textwrite(cx, cfg)
+    if fam in ("fieldops", "byteorder"):
+        return harness_delegate(cx, cfg)
     if fam == "recwrite":
         _, delim, order, how = cfg
         vfs = recmodel.VFS()
@@ -505,6 +570,52 @@ def replay(cand):
         if nm:
             return {"reproduced": True, "key": key, "what": "%s modified its argument %s" % (desc, nm)}
         return None
+    if fam == "fieldops":
+        # every table the C07 replay builds is an input that must come back bit-for-bit
+        from props import C07
+        made = []
+        orig = C07._real_table
+
+        def spy(*a, **k):
+            t = orig(*a, **k)
+            made.append((t, t.tobytes(), t.dtype, t.shape, t.strides))
+            return t
+        C07._real_table = spy
+        try:
+            try:
+                C07.replay(dict(cand, cfg=cfg[1]))
+            except Exception:
+                pass
+        finally:
+            C07._real_table = orig
+        for t, b, dt, sh, st_ in made:
+            if t.tobytes() != b or t.dtype != dt or t.shape != sh or t.strides != st_:
+                return {"reproduced": True, "key": "fieldops:%s:input-modified" % cfg[1][0],
+                        "what": "field operation %r modified an input table of dtype %s" % (cfg[1][0], dt)}
+        return no
+    if fam == "byteorder":
+        from props import C16
+        c = cfg[1]
+        c = tuple(tuple(x) if isinstance(x, list) else x for x in c)
+        c = (c[0], c[1], c[2], tuple(c[3]))
+        mdl = cand["model"] or {}
+        arr = C16._real_input(c, mdl)
+        for func in ([C16.FUNCS[int(mdl.get("func", 0))]] + list(C16.FUNCS)):
+            for keep in (bool(mdl.get("keep_dtype", False)), True, False):
+                for view in (False, True):
+                    if view and arr.ndim == 0:
+                        continue
+                    owner = arr.copy()
+                    a = owner[:] if view else owner
+                    before = (owner.tobytes(), owner.dtype, a.dtype, a.strides)
+                    try:
+                        getattr(nu, func)(a, inplace=False, keep_dtype=keep)
+                    except Exception:
+                        pass
+                    if (owner.tobytes(), owner.dtype, a.dtype, a.strides) != before:
+                        return {"reproduced": True, "key": "byteorder:%s:input-modified" % func,
+                                "what": "%s(<%s array shape %s>, inplace=False, keep_dtype=%s) modified its input" % (func, arr.dtype, arr.shape, keep)}
+        return no
     if fam == "recwrite":
         _, delim, order, how = cfg
         d = tempfile.mkdtemp(prefix="c15-")
@@ -683,6 +794,6 @@ def replay(cand):
 MANIFEST_ENTRY = {
     "engine": "symx+cast",
     "technique": "write monitor inside the symbolic executors (symx/z3 for the Python sources, cast for the interpreted C wrappers): every buffer reachable from an argument is frozen and each store through any alias, view, out=, augmented assignment, byteswap(True), dtype assignment or C pointer is checked on every feasible path, with the argument's dtype class, byte order, layout and dimensionality and the path-selecting options as forked choices; the string branch of the C++ text writer interpreted from clang's AST (castxx) with the row memory frozen; finiteness tests answer arbitrarily so that NaN/inf branches are explored for stores; candidates are replayed on real arrays of every variant (incl. views that do not own their memory, NaN/inf data) comparing bytes, dtype and strides before and after",
-    "text": "On every feasible path of the listed functions (record-file writes text/binary, match/unique/rem_dup/splitarray, histogram/Binner with weights on both engines, wmom/wmedian/sigma_clip/interplin/get_stats, the coordinate conversions with their unit/stomp options, the Cosmo distance methods down to the C wrappers, the Python layers of HTM lookup/match/bincount/Matcher) and for every argument variant (f8/f4/i8, native/swapped, contiguous/strided, 0-d/1-d) no store reaches a caller-owned buffer.",
-    "note": "field operations and byte-order conversions are frozen in their own checks (C07, C16), WCS under C10; the string branch of the C++ text writer (Records::WriteRows/WriteField/WriteStringAsAscii) is interpreted with the row memory frozen; the rest of records.cpp and htmc.cc are behind contracts (a store made there is not seen)",
+    "text": "On every feasible path of the listed functions (record-file writes text/binary, match/unique/rem_dup/splitarray, extract/remove/reorder/add/combine/copy/split fields and compare_arrays over the C07 table layouts, to_native/to_big_endian/to_little_endian/byteswap with inplace off over the C16 plain and structured layouts with keep_dtype on and off, histogram/Binner with weights on both engines, wmom/wmedian/sigma_clip/interplin/get_stats, the coordinate conversions with their unit/stomp options, the Cosmo distance methods down to the C wrappers, the Python layers of HTM lookup/match/bincount/Matcher) and for every argument variant (f8/f4/i8, native/swapped, contiguous/strided, 0-d/1-d) no store reaches a caller-owned buffer.",
+    "note": "field operations and byte-order conversions are explored through the harnesses of C07 / C16 with their functional oracles switched off and only the write monitor armed (the oracles themselves are decided under C07 / C16), WCS under C10; the string branch of the C++ text writer (Records::WriteRows/WriteField/WriteStringAsAscii) is interpreted with the row memory frozen; the rest of records.cpp and htmc.cc are behind contracts (a store made there is not seen)",
 }
